@@ -36,6 +36,12 @@ def cases(tier, seed):
         s["par"] = (i % 6 == 0) if tier == "quick" else (i % 10 == 0)
         s["seed"] = R.randrange(1 << 30)
         out.append(s)
+    # histories on ONE Pyramid object: count / visit, then restrict or re-depth the same object and count / visit again
+    for i in range(120 if tier == "quick" else 1500):
+        s = gens.gen_pyramid(R, maxdepth=4, mindepth=1, kinds=("filtered", "filtered", "bbox", "toast", "generic"), sub_p=0)
+        s["t"] = "objhist"
+        s["seed"] = R.randrange(1 << 30)
+        out.append(s)
     # directed corner cases
     for d in (0, 1, 2, 3):
         for kind in ("generic", "toast"):
@@ -162,6 +168,54 @@ def _pyr_case(spec, workdir):
     else:
         res["status"] = "held"
     return res
+
+
+def _objhist(spec, workdir):
+    """counts and visits must describe the pyramid as it is NOW, whatever was computed on the same object before"""
+    from toasty.pyramid import Pos
+
+    R = random.Random(spec["seed"])
+    depth = spec["depth"]
+    acc = gens.resolve_accepted(spec)
+    pyr = gens.build_pyramid(spec)
+    probs = []
+    steps = []
+
+    def check(apex, d, label):
+        a = acc
+        if a is not None and d < depth:
+            a = {p for p in a if p[0] <= d}
+        rl, ro = rq.leaves(d, a, apex), rq.live_parents(d, a, apex)
+        got = (pyr.count_leaf_tiles(), pyr.count_live_tiles(), pyr.count_operations())
+        exp = (len(rl), len(rl) + len(ro), len(ro))
+        if got != exp:
+            probs.append("%s: counts (leaves, live, ops) = %s, reference %s" % (label, got, exp))
+        seen = []
+        pyr.visit_leaves(lambda pos, tile: seen.append((int(pos.n), int(pos.x), int(pos.y))), parallel=1)
+        if sorted(seen) != sorted(rl):
+            probs.append("%s: visit_leaves visited %d tiles, reference %d" % (label, len(seen), len(rl)))
+        seen = []
+        pyr.walk(lambda pos: seen.append((int(pos.n), int(pos.x), int(pos.y))), parallel=1)
+        if sorted(seen) != sorted(ro):
+            probs.append("%s: walk visited %d tiles, reference %d" % (label, len(seen), len(ro)))
+        steps.append(label)
+
+    check((0, 0, 0), depth, "fresh")
+    check((0, 0, 0), depth, "repeated")
+    d2 = depth
+    if R.random() < 0.5 and depth >= 2:
+        d2 = depth - 1
+        pyr.depth = d2  # "The maximum depth of the pyramid ... This value may be changed."
+        check((0, 0, 0), d2, "after depth %d -> %d" % (depth, d2))
+    n = R.randrange(1, d2 + 1)
+    cands = [p for p in (acc or []) if p[0] == n]
+    apex = R.choice(cands) if cands and R.random() < 0.7 else (n, R.randrange(1 << n), R.randrange(1 << n))
+    pyr.subpyramid(Pos(*apex))
+    check(tuple(apex), d2, "after subpyramid(%s)" % (tuple(apex),))
+    r = dict(counters=dict(object_histories=1, object_history_steps=len(steps)), nontrivial=True, sample=dict(spec={k: v for k, v in spec.items() if k != "accepted"}, steps=steps))
+    if probs:
+        r.update(status="violation", key="stale-state-on-reused-pyramid", detail="; ".join(probs[:5]))
+    return r
 
 
 def _genpos(spec):
@@ -295,6 +349,8 @@ def run_case(spec, workdir):
         return _algebra(spec)
     if t == "closed2":
         return _closed2(spec, workdir)
+    if t == "objhist":
+        return _objhist(spec, workdir)
     instr_mp.install("natural", spec.get("seed", 0))
     return _pyr_case(spec, workdir)
 
